@@ -4,7 +4,7 @@ from harness import tlc, hostrun
 
 OWN = {"C10": {"onlyappend", "complete", "rewritten", "toldwhy", "allowed", "notraceback", "readonly"},
        "C09": {"preserves", "happens", "sniff", "allowed", "listed"},
-       "C15": {"capacity", "construct"},
+       "C15": {"capacity", "construct", "oneslot"},
        "C08": {"complete"},          # every image written through the host path is a complete, consistent image of the requested kind (DiskBytes!FsckOK for disks)
        "C11": {"newpath"}, "C16": {"newpath"}}
 # "allowed" (the table) is reported under the property whose cell it is: decided per item below
@@ -56,8 +56,11 @@ def judge(ctx, name, recs, t0, own=None):
     ctx.sample({"suite": name, "init": r["init"], "cmds": [e["cmd"] for e in r["events"]], "judged": [s["post"]["kind"] for s in verd[r["id"]]["steps"]]})
 
 
-def replay_histories(hists):
+def replay_histories(hists, extra_every=0):
     os.environ["VERIF_SCRATCH"] = tlc.OUT
+    if extra_every:
+        # every n-th history: each command also writes its other kinds of output to other, new paths (independence of the outputs of one command)
+        hists = [dict(h, extra=True) if k % extra_every == extra_every - 1 else h for k, h in enumerate(hists)]
     with mp.Pool(16) as pool:
         return pool.map(hostrun.replay, list(enumerate(hists)), chunksize=4)
 
@@ -101,7 +104,7 @@ def run(ctx):
     t0 = time.time()
     hists, total = model_histories(ctx, rnd, 2500 if thorough else 150)
     ctx.cov["suites"]["export"] = {"tlc_exported_histories": total, "replayed": len(hists)}
-    recs = replay_histories(hists)
+    recs = replay_histories(hists, extra_every=3)
     judge(ctx, "model-histories", recs, t0)
     ctx.cov["rule"] = ("histories of <= 2 (thorough: sampled 3) invocations of assembler.py / file_util.py on one target path: {--to_bin, --to_cas, --to_dsk} x {append, not} x "
                        "existing target {absent, 0 bytes, tape, tape >= 161,280 bytes, disk, full disk, raw binary, junk} x {named, unnamed program / all, one, no file selected}; the "
